@@ -32,9 +32,20 @@ func VerifTypeTable() {
 
 func verifField(name string, n int) string {
 	s := verifrt.String(name, n)
-	if verifrt.ParamStr("alphabet") == "ascii" {
+	switch a := verifrt.ParamStr("alphabet"); a {
+	case "":
+	case "ascii":
 		for i := 0; i < len(s); i++ {
 			verifrt.Assume(verifrt.And(s[i] >= 0x20, s[i] < 0x7f))
+		}
+	default:
+		// an explicit alphabet
+		for i := 0; i < len(s); i++ {
+			in := false
+			for j := 0; j < len(a); j++ {
+				in = verifrt.Or(in, s[i] == a[j])
+			}
+			verifrt.Assume(in)
 		}
 	}
 	return s
@@ -65,6 +76,12 @@ func VerifRoundTrip() {
 		return
 	}
 	verifrt.Reach("parsed")
+	// normalisation concerns the type, namespace and name only: the version and the qualifier
+	// values come back verbatim
+	verifrt.Assert(q.Version == p.Version, "parsing the printed PURL recovers the version verbatim")
+	if len(p.Qualifiers) == 1 && len(p.Qualifiers[0].Value) > 0 {
+		verifrt.Assert(len(q.Qualifiers) == 1 && q.Qualifiers[0].Value == p.Qualifiers[0].Value, "parsing the printed PURL recovers qualifier values verbatim")
+	}
 	// print∘parse may normalise (case, separators) but must be idempotent
 	s1 := q.String()
 	q2, err := FromString(s1)
